@@ -30,7 +30,7 @@ def _s(b):
 
 
 SCANNERS = {"c_rawscanner", "c_ptrscanner"}
-CONSUMERS = SCANNERS | {"c_rawscan", "c_ptrscan", "c_mapscan", "c_slicemap"}
+CONSUMERS = SCANNERS | {"c_rawscan", "c_ptrscan", "c_keepscan", "c_mapscan", "c_slicemap"}
 
 
 def _known_class(c, mode, v, view):
